@@ -329,7 +329,17 @@ def run(ck):
                       cm = None
                       mm = re.fullmatch(r"(\w+)@L\d+'*", idx)
                       if mm: cm = pv.counter_max(mm.group(1))
-                      if cm is not None and cm < size: pass
+                      ms = re.fullmatch(r"\((strlen#\d+'*) - (\d+)\)", idx)
+                      within = False
+                      if ms:
+                          # A[strlen(A) - n]: inside the string that A already holds, provided strlen(A) >= n on this path
+                          sl = [c for c in p.events[:i] if c[0] == 'call' and c[3] == ms.group(1)]
+                          nn = int(ms.group(2))
+                          ge = any(x[0] == 'cond' and x[2] and ((re.fullmatch(re.escape('(' + ms.group(1)) + r' > (\d+)\)', x[1]) and int(re.fullmatch(re.escape('(' + ms.group(1)) + r' > (\d+)\)', x[1]).group(1)) >= nn - 1)
+                                                                or (re.fullmatch(re.escape('(' + ms.group(1)) + r' >= (\d+)\)', x[1]) and int(re.fullmatch(re.escape('(' + ms.group(1)) + r' >= (\d+)\)', x[1]).group(1)) >= nn)) for x in p.events[:i])
+                          within = bool(sl) and sl[0][2] == (A,) and ge and pv.array_terminated(A, p, p.events.index(sl[0]))
+                      if within: pass
+                      elif cm is not None and cm < size: pass
                       elif not (idx.isdigit() and int(idx) < size) and (not conds or any(shared_admits(conds, x) for x in (size, size + 1, size * 2, 10 ** 6))):
                           badbuf.setdefault(f'{e[1]} := {e[2]}: index not bounded below {size}', where(e[3]))
                   # offset dereferences in conditions / values
@@ -374,6 +384,29 @@ def run(ck):
                     ab = [p for p in paths if p.events and p.events[-1][0] == 'abort']
                     ok = bool(ab) and all(any(e[0] == 'cond' and '<default>' in e[1] for e in p.events) for p in ab)
                 r66.instance(f'{key}:{fname}:{name}', ok=ok, wclass='abort-site', what=f'{fname} can reach {name} ({where(call)}) on input-dependent conditions')
+    # the default arm of the class switch calls abort(): it is unreachable only if no callback can hand a positive value
+    # other than a class to eav_is_email.  Every value the domain pipeline can return / store in rc is classified here.
+    def rc_kind(v):
+        v = str(v)
+        if v in ('0', 'EEAV_NO_ERROR'): return 'zero'
+        if re.fullmatch(r'-EEAV_\w+', v): return 'negative'
+        if v == 'TLD_TYPE_SPECIAL': return 'class'
+        if re.fullmatch(r"is_tld#\d+'*", v): return 'class-or-negative'          # row.type or -EEAV_TLD_INVALID (C07 R7.2)
+        if re.fullmatch(r"is_(ascii_domain|\d+_local|utf8_domain)#\d+'*", v): return 'validator'   # 0 / negative by their own returns (C15 T15.2) or classified below
+        return None
+    for b in BACKENDS:
+        k = f'partial/{b}/is_utf8_domain.c'
+        eng, ups = cfgpaths.summarise(tus[k], 'is_utf8_domain')
+        bad = sorted({str(p.ret()[1]) for p in ups if rc_kind(p.ret()[1]) is None})
+        r66.instance(f'{k}:is_utf8_domain:returns', ok=not bad, wclass='positive-code-escapes', what=f'is_utf8_domain can return {bad}: a positive value that is not a TLD class reaches the class switch of eav_is_email, whose default arm calls abort()')
+    for key, fn in [(k, f'is_{m}_email') for m, k in emailfn.ASCII.items()] + [(f'partial/{b}/is_6531_email.c', 'is_6531_email') for b in BACKENDS]:
+        eng, eps = cfgpaths.summarise(tus[key], fn)
+        bad = set()
+        for p in eps:
+            if p.events and p.events[-1][0] == 'abort': continue
+            rc = next((e[2] for e in reversed(p.events) if e[0] == 'set' and e[1].endswith('->rc')), None)
+            if rc_kind(rc) is None: bad.add(str(rc))
+        r66.instance(f'{key}:{fn}:rc', ok=not bad, wclass='positive-code-escapes', what=f'{fn} can leave rc = {sorted(bad)}: not 0, a negative code or a TLD class; eav_is_email aborts on it')
     # ---- R6.8 loops
     r68 = ck.rule('R6.8', 'every loop in non-scanner library code makes progress towards its bound, and an O(n) libc call inside a loop works on the advancing cursor (amortised) or is guarded to run once', 6)
     KNOWN_LOOPS = {
@@ -397,14 +430,14 @@ def run(ck):
                         if fname == 'is_ipv4' and nm == 'strspn' and a0 == 'start' and guarded_once(tu, fname, c): continue
                         ok = False; why = f'{nm}({a0}, ...) inside the scanning loop rescans from a fixed position on every iteration'
                 else:
-                    if (key, fname) not in KNOWN_LOOPS: ok = False; why = 'a loop in a function that had none: confirm its bound and progress, then list it'
-                    else:
+                    if True:
                         txt = ' '.join(n.get('opcode', '') + n.get('kind', '') for n in astutil.walk(l))
                         if not any(k in txt for k in ('++', '--', '=BinaryOperator', 'CompoundAssign')): ok = False; why = 'loop without an induction update'
                         for nm, c in inner:
                             eng = cfgpaths.Engine(tu, fname); args = [eng.render(a, cfgpaths.Path()) for a in c['inner'][1:]]
                             if nm == 'strchr' and args[0] == 'cp': continue                                  # amortised: cp moves past the result
-                            if nm == 'strncasecmp' and len(args) == 3 and re.search(r'\.length$|->length$', args[2]): continue   # bounded by a table entry
+                            if nm in ('strncasecmp', 'strncmp', 'memcmp') and len(args) == 3 and re.search(r'\.length$|->length$', args[2]): continue   # bounded by a table entry
+                            if nm in ('strncasecmp', 'strncmp', 'memcmp', 'strcmp', 'strcasecmp') and const_trip_loop(tu, fname, l): continue              # a constant number of bounded comparisons
                             ok = False; why = f'{nm}({", ".join(args)}) inside a loop is neither on the advancing pointer nor bounded by a table entry'
                 r68.instance(site if not ok else f'{key}:{fname}:loops', ok=ok, wclass='loop', what=f'{fname}: {why} ({where(l)})')
     # ---- R6.9 accumulators
@@ -448,6 +481,15 @@ def run(ck):
     c14.run(ck)
     ck.undecided('signed overflow of counters for inputs above 2^31 bytes; ptrdiff to int narrowing beyond INT_MAX; anything inside libidn2 / libc; "64 KiB inputs run in linear time" is argued from one-pass progress, not measured')
     ck.assume('NUL-terminated input with length == strlen (statement); allocation failure aside')
+
+
+def const_trip_loop(tu, fname, l):
+    """is the loop bounded by a compile-time constant (i < ARRAY_SIZE(table) / i < N)?"""
+    if l.get('kind') != 'ForStmt': return False
+    cond = l['inner'][2]
+    if not cond or not cond.get('kind'): return False
+    s = cfgpaths.Engine(tu, fname).render(cond, cfgpaths.Path())
+    return re.fullmatch(r'\(\w+ (<|<=) \d+\)', s) is not None
 
 
 def strip_zero(l):
